@@ -306,6 +306,57 @@ func stripStrings(s string) string {
 	return b.String()
 }
 
+// c17Sequence serialises a fresh object for the first time by appending into
+// a caller-owned buffer, overwrites that buffer, and serialises again in
+// several orders: every later result must equal the first one.
+func c17Sequence(c *mon.Ctx, n *Node, fresh func() geojson.Object) {
+	o := fresh()
+	r := c.Rng
+	plen, spare := r.Intn(16), 64+r.Intn(4096)
+	buf := make([]byte, plen, plen+spare)
+	for i := range buf {
+		buf[i] = '.'
+	}
+	res := o.AppendJSON(buf)
+	first := string(res[plen:])
+	for i := range res {
+		res[i] = '#'
+	}
+	full := res[:cap(res)]
+	for i := range full {
+		full[i] = '#'
+	}
+	c.Eval()
+	c.Count("append_first_sequences")
+	mk := func(what, got string) c17Case {
+		return c17Case{Object: n.Describe(), What: what, Output: truncate(got, 600), Detail: "first serialisation (AppendJSON into a caller buffer that was then overwritten): " + truncate(first, 300)}
+	}
+	order := r.Perm(4)
+	for _, k := range order {
+		var got string
+		switch k {
+		case 0:
+			got = o.JSON()
+		case 1:
+			got = o.String()
+		case 2:
+			b, _ := o.MarshalJSON()
+			got = string(b)
+		default:
+			got = string(o.AppendJSON(make([]byte, 0, r.Intn(64))))
+		}
+		if got != first {
+			c.Violation("serialisation-changes", "a later serialisation differs from the object's first one after the caller reused its buffer", mk([]string{"JSON", "String", "MarshalJSON", "AppendJSON"}[k], got))
+			return
+		}
+	}
+	// a second object's output must not be disturbed by the first one's buffers either
+	o2 := fresh()
+	if j := o2.JSON(); j != first {
+		c.Violation("serialisation-changes", "an identical fresh object serialises differently", mk("JSON of an identical object", j))
+	}
+}
+
 // c17Tree checks the root and all nested objects.
 func c17Tree(c *mon.Ctx, root *Node, o geojson.Object) {
 	desc := root.Describe()
@@ -404,6 +455,9 @@ func c17Run(c *mon.Ctx) {
 			h := mon.NewH().S(root.Kind).I(int64(i))
 			c.NonTrivial(uint64(h))
 		})
+		if i%2 == 0 {
+			c.Try(func() { c17Sequence(c, root, func() geojson.Object { return root.Build(nil) }) })
+		}
 		if i < 48 && i%16 == c.Shard && c.WantSample() {
 			c.Sample(map[string]interface{}{"object": root.Describe(), "json": truncate(root.Build(nil).JSON(), 300)})
 		}
@@ -478,7 +532,7 @@ func truncate(s string, n int) string {
 }
 
 func init() {
-	must := []string{"appends_into_spare_capacity", "nonfinite_ordinates", "features_with_member_text", "pointz", "kind_Circle", "parsed_with_members"}
+	must := []string{"append_first_sequences", "appends_into_spare_capacity", "nonfinite_ordinates", "features_with_member_text", "pointz", "kind_Circle", "parsed_with_members"}
 	for _, k := range allKinds {
 		must = append(must, "kind_"+k)
 	}
